@@ -17,8 +17,9 @@
      global(n), nonlocal(n)
      loop ... endloop                          `for i_ in (0, 1):` around statements
 
-   Rendering convention the semantics below relies on (harness/props/c03.py):
-   every fn/lambda is called exactly once, immediately after its definition; class
+   Rendering convention the semantics below relies on (harness/scoping.py):
+   every fn/lambda is called exactly once, immediately after its definition or (open
+   item with d = 1) at the end of the block containing the definition; class
    bodies and comprehensions run in place; every statement is protected separately
    against NameError.  Hence execution order = textual order, except inside a
    comprehension (iterable, target, condition, element) and in a loop (body twice).
@@ -44,10 +45,12 @@ VARIABLES prog, sc, stack, loopAt,
           maxn    \* largest identifier used so far (derived)
 vars == <<prog, sc, stack, loopAt, cnt, maxn>>
 
-AllFeat == {"fn", "class", "lambda", "comp", "loop", "cif", "iteruse", "walrus", "param", "huse",
+AllFeat == {"fn", "defer", "class", "lambda", "comp", "loop", "cif", "iteruse", "walrus", "param", "huse",
             "global", "nonlocal", "except", "del"}
 Names == 1..NNames
-It(t, n, h) == [t |-> t, n |-> n, h |-> h]
+It(t, n, h) == [t |-> t, n |-> n, h |-> h, d |-> 0]
+\* d = 1 on open(fn): the single call of the function is deferred to the end of the block
+\* that contains the def (the usual shape: functions first, the data they read later)
 Inf == 1000000
 
 ---------------------------------------------------------------------------
@@ -180,23 +183,27 @@ Complete == stack = <<>> /\ loopAt = 0
 
 ---------------------------------------------------------------------------
 (* Reference, part 2: execution.  ExecSeq = item indices in execution order. *)
-RECURSIVE Order(_, _), CompOrder(_, _)
-Order(lo, hi) ==
-  IF lo > hi THEN <<>>
+\* Body(lo, hi, dfr): the sibling items lo..hi of one block; dfr = bodies of deferred
+\* functions defined so far in this block, run when the block ends
+RECURSIVE Body(_, _, _), CompOrder(_, _)
+Body(lo, hi, dfr) ==
+  IF lo > hi THEN dfr
   ELSE IF prog[lo].t = "open" THEN
          LET c == CloseOf(lo) IN
-         (IF prog[lo].h = "comp" THEN CompOrder(lo, c)
-          ELSE <<lo>> \o Order(lo + 1, c - 1) \o <<c>>) \o Order(c + 1, hi)
+         IF prog[lo].h = "comp" THEN CompOrder(lo, c) \o Body(c + 1, hi, dfr)
+         ELSE IF prog[lo].d = 1
+              THEN Body(c + 1, hi, dfr \o <<lo>> \o Body(lo + 1, c - 1, <<>>) \o <<c>>)
+              ELSE <<lo>> \o Body(lo + 1, c - 1, <<>>) \o <<c>> \o Body(c + 1, hi, dfr)
   ELSE IF prog[lo].t = "loop" THEN
-         LET e == EndOf(lo)  body == Order(lo + 1, e - 1) IN
-         body \o body \o Order(e + 1, hi)
-  ELSE <<lo>> \o Order(lo + 1, hi)
+         LET e == EndOf(lo)  b == Body(lo + 1, e - 1, <<>>) IN
+         b \o b \o Body(e + 1, hi, dfr)
+  ELSE <<lo>> \o Body(lo + 1, hi, dfr)
 CompOrder(o, c) ==
   LET t == TargetOf(o)  f == CifOf(o) IN
-  <<o>> \o Order(t + 1, (IF f = 0 THEN c ELSE f) - 1) \o <<t>>
-        \o (IF f = 0 THEN <<>> ELSE Order(f + 1, c - 1))
-        \o Order(o + 1, t - 1) \o <<c>>
-ExecSeq == Order(1, N)
+  <<o>> \o Body(t + 1, (IF f = 0 THEN c ELSE f) - 1, <<>>) \o <<t>>
+        \o (IF f = 0 THEN <<>> ELSE Body(f + 1, c - 1, <<>>))
+        \o Body(o + 1, t - 1, <<>>) \o <<c>>
+ExecSeq == Body(1, N, <<>>)
 
 RECURSIVE OutermostExpr(_)
 OutermostExpr(s) == IF IsExpr(sc[s]) THEN OutermostExpr(sc[s]) ELSE s
@@ -379,6 +386,7 @@ AddUse(n) == /\ NameOK(n) /\ cnt < MaxItems
              /\ (IF Kind(Top) = "comp" /\ Phase = "iter" THEN Last.t = "target" /\ "iteruse" \in Feat ELSE TRUE)
              /\ Add(It("use", n, ""), Top) /\ UNCHANGED <<stack, loopAt>>
 AddHUse(n) == /\ "huse" \in Feat /\ NameOK(n) /\ cnt < MaxItems /\ Kind(Top) \in {"fn", "class"}
+              /\ prog[Top].d = 0
               /\ (IF Last.t = "open" THEN N = Top
                   ELSE Last.t = "bind" /\ Last.h = "param" /\ sc[N] = Top)
               /\ Add(It("huse", n, ""), Top) /\ UNCHANGED <<stack, loopAt>>
@@ -401,10 +409,12 @@ AddTarget(n) == /\ NameOK(n) /\ cnt < MaxItems /\ Kind(Top) = "comp" /\ Phase = 
                 /\ Add(It("target", n, ""), Top) /\ UNCHANGED <<stack, loopAt>>
 AddCif == /\ "cif" \in Feat /\ cnt < MaxItems /\ Kind(Top) = "comp" /\ Phase = "iter"
           /\ Add(It("cif", 0, ""), Top) /\ UNCHANGED <<stack, loopAt>>
-OpenScope(k) == /\ k \in Feat /\ cnt < MaxItems /\ Len(stack) < MaxDepth
+OpenScope(k, d) ==
+                /\ k \in Feat /\ cnt < MaxItems /\ Len(stack) < MaxDepth
+                /\ (IF d = 1 THEN k = "fn" /\ "defer" \in Feat ELSE TRUE)
                 /\ (IF IsExpr(Top) THEN k \in {"lambda", "comp"} ELSE TRUE)
                 /\ (IF Kind(Top) = "comp" THEN Phase # "iter" ELSE TRUE)
-                /\ Add(It("open", 0, k), Top)
+                /\ Add([It("open", 0, k) EXCEPT !.d = d], Top)
                 /\ stack' = Append(stack, N + 1) /\ UNCHANGED loopAt
 CloseScope == /\ stack # <<>>
               /\ (IF Kind(Top) = "comp" THEN TargetOf(Top) # 0 ELSE TRUE)
@@ -423,7 +433,7 @@ Next == \/ \E n \in Names : AddUse(n) \/ AddHUse(n) \/ AddParam(n) \/ AddWalrus(
         \/ \E n \in Names, d \in {"global", "nonlocal"} : AddDecl(n, d)
         \/ \E n \in 0..NNames : AddTarget(n)
         \/ AddCif
-        \/ \E k \in {"fn", "class", "lambda", "comp"} : OpenScope(k)
+        \/ \E k \in {"fn", "class", "lambda", "comp"}, d \in {0, 1} : OpenScope(k, d)
         \/ CloseScope \/ OpenLoop \/ CloseLoop
 
 ---------------------------------------------------------------------------
@@ -434,7 +444,7 @@ SetToSeq(S) == IF S = {} THEN <<>>
 Code(it) == (CASE it.t = "bind" -> 1 [] it.t = "use" -> 2 [] it.t = "open" -> 3 [] it.t = "close" -> 4
                [] it.t = "target" -> 5 [] it.t = "global" -> 6 [] it.t = "nonlocal" -> 7
                [] it.t = "huse" -> 8 [] it.t = "loop" -> 9 [] it.t = "cif" -> 10 [] OTHER -> 11)
-            + 13 * it.n + 29 * Len(it.h)
+            + 13 * it.n + 29 * Len(it.h) + 37 * it.d
 RECURSIVE Hash(_)
 Hash(p) == IF p = <<>> THEN 7 ELSE (Code(Head(p)) + 31 * Hash(Tail(p))) % 1000003
 UseRec(st, u, o) == LET g == JediGoto(u) IN
